@@ -130,12 +130,42 @@ def gen_clonecache(r):
     return pre + core + post + tail
 
 
+def gen_classkw(r):
+    """a class statement nested directly in a class body (1-2 levels) whose keyword arguments / bases read names bound only
+    in the enclosing class body: Python evaluates them in that class body (the names are visible), and so must the
+    finder (keywords visited in the enclosing scope).  The harness's __build_class__ accepts and drops the keywords."""
+    pool = list(G.NAMES)
+    r.shuffle(pool)
+    outer, inner, inner2, m1, m2, src = pool[0], pool[1], pool[2], pool[3], pool[4], pool[5]
+    g = G.Gen(r, True, maxdepth=1, classes=False, comps=False)
+
+    def ld(n):
+        return ["load", n, [r.choice(G.ATTRS)] if r.random() < .4 else []]
+    bind = r.choice([["assign", [["n", m1]], ["load", G.REG, []]],
+                     ["import", [[["m"], m1]]],
+                     ["for", ["n", m1], ["op", "list", [["load", G.REG, []]]], [["pass"]], []]])
+    kws = [ld(m1)] + ([ld(r.choice([m1, m2]))] if r.random() < .4 else [])
+    bases = [ld(m1)] if r.random() < .3 else []
+    ibody = [["pass"]]
+    if r.random() < .4:
+        ibody = [["assign", [["n", m2]], ["load", G.REG, []]], ["class", inner2, [], [], [ld(m2)], [["pass"]]]]
+    body = [bind] + ([["assign", [["n", m2]], ["load", G.REG, []]]] if r.random() < .6 else []) \
+        + [["class", inner, bases, [], kws, ibody]]
+    pre = g.stmt(0) if r.random() < .3 else []
+    core = [["class", outer, [], [], [], body], ["assign", [["n", outer]], ["op", "call", [["load", G.REG, []], ["load", outer, []]]]]]
+    return pre + core
+
+
 def make_case(seed, i, kind=None):
     r = cm.rng(seed, "c05", i)
     if kind is None and i % 25 == 24:
         kind = "cc"
+    if kind is None and i % 25 == 14:
+        kind = "ck"
     if kind == "cc":
         return {"kind": "exec", "i": i, "prog": G.normalise(gen_clonecache(r)), "ns": gen_ns(r)}
+    if kind == "ck":
+        return {"kind": "exec", "i": i, "prog": G.normalise(gen_classkw(r)), "ns": gen_ns(r)}
     if kind is None:
         # 2/10 stage-2 programs (functions and lambdas, no class / comprehension), 1/10 stage 1, the rest as before
         kind = {0: "s2", 1: "s2", 2: "s1", 4: "u2", 5: "s3", 6: "s3", 8: "u3"}.get(i % 10, "exec" if i % 4 != 3 else "free")
@@ -1098,6 +1128,116 @@ def check_mods(ctx, case, im):
     ctx.count({"src": case["src"], "ns": case["present"]}, bool(im["fm"]))
 
 
+# ---------------------------------------------------------------------------------------------
+# oracle-only stream: except handlers that RUN (the try body is a call of a namespace-supplied callable that raises).
+# PySem / the executed stream never run a handler body; here the source is executed for real, no model.
+
+def make_hnd_case(seed, i):
+    """try: raise_()  /  except <type> as e: <the handler binds a name>  /  a read of that name after the try statement, at
+    module level or in a function called at the end.  Everything executes, every lookup succeeds: nothing may be reported.
+    Variants: the try statement inside a function, an else / finally branch, a second handler, a read of a name that is
+    bound nowhere (must be reported)."""
+    r = cm.rng(seed, "c05hnd", i)
+    x = r.choice(["hx", "hy", "hz"])
+    binds = {"assign": ["%s = 1" % x], "import": ["import os as %s" % x], "from": ["from os import path as %s" % x],
+             "def": ["def %s():" % x, "    return 1"], "class": ["class %s:" % x, "    pass"],
+             "for": ["for %s in [1]:" % x, "    pass"], "with": ["with ctx_() as %s:" % x, "    pass"],
+             "aug": ["%s = 1" % x, "%s += 1" % x]}
+    kind = r.choice(sorted(binds))
+    etype = r.choice(["OSError", "Exception", "(OSError, ValueError)"])
+    hdr = ["try:", "    raise_()"]
+    if r.random() < .3:
+        hdr.append("except KeyError:") ; hdr.append("    pass")
+    hdr.append("except %s as err:" % etype)
+    body = ["    " + b for b in binds[kind]]
+    if r.random() < .3:
+        body.append("    err.args")
+    tail = []
+    if r.random() < .25:
+        tail += ["else:", "    never_reached = 1"]
+    if r.random() < .25:
+        tail += ["finally:", "    fin = 1"]
+    stmt = hdr + body + tail
+    unbound = r.random() < .3
+    read = ["%s" % x] + (["zq_unbound"] if unbound else [])
+    lines = []
+    where = r.choice(["module", "module", "function", "infunc"])
+    if where == "module":
+        lines = stmt + read
+    elif where == "function":
+        lines = ["def later():"] + ["    " + t for t in read] + stmt + ["later()"]
+    else:
+        lines = ["def whole():"] + ["    " + t for t in stmt + read] + ["whole()"]
+    return {"kind": "hnd", "i": i, "src": "\n".join(lines) + "\n", "unbound": unbound}
+
+
+def impl_hnd(c):
+    import builtins
+    import contextlib
+    from pyflyby import find_missing_imports
+
+    def raise_():
+        raise OSError("raised by the harness")
+
+    @contextlib.contextmanager
+    def ctx_():
+        yield 1
+    ns = {"raise_": raise_, "ctx_": ctx_}
+    out = {}
+    try:
+        out["fm"] = sorted(str(x) for x in find_missing_imports(c["src"], [dict(ns)]))
+    except Exception as e:
+        out["fm"] = {"exc": type(e).__name__, "msg": str(e)[:200]}
+        return out
+    failing = []
+
+    class G_(dict):
+        def __missing__(self, k):
+            if hasattr(builtins, k):
+                return getattr(builtins, k)
+            failing.append(k)
+            return 0
+    g = G_(ns)
+    try:
+        exec(compile(c["src"], "<hnd>", "exec"), g)
+        out["exc"] = None
+    except Exception as e:
+        out["exc"] = [type(e).__name__, str(e)[:120]]
+    out["failing"] = sorted(set(failing))
+    return out
+
+
+def check_hnd(ctx, case, im):
+    rec = {"i": case["i"], "kind": "hnd", "src": case["src"], "unbound": case["unbound"]}
+    ctx.bump("hnd:cases")
+    if isinstance(im.get("fm"), dict):
+        ctx.violation("find_missing_imports raised on a program with an except handler", rec, im["fm"])
+    elif im["exc"] is not None:
+        ctx.bump("hnd:run_raised")
+        ctx.disagreement("handler stream: the generated program raised", rec, im["exc"], None)
+    else:
+        reported = set(n.split(".")[0] for n in im["fm"])
+        raised = set(im["failing"])
+        if reported - raised:
+            ctx.violation("missing_precise (the except handler ran, every lookup of the name succeeds)", rec,
+                          {"extra": sorted(reported - raised), "reported": im["fm"], "cpython_failing": im["failing"]})
+        if raised - reported:
+            ctx.violation("missing_sound (handler stream)", rec,
+                          {"unreported": sorted(raised - reported), "reported": im["fm"], "cpython_failing": im["failing"]})
+        ctx.bump("hnd:ok")
+    ctx.count({"src": case["src"], "ns": ["raise_", "ctx_"]}, bool(im.get("fm")))
+
+
+def run_hnd(ctx, n):
+    cases = [make_hnd_case(ctx.seed, i) for i in range(n)]
+    impl = cm.run_impl("c05", "impl_hnd", cases, timeout_case=30)
+    for c, im in zip(cases, impl):
+        if "__exc__" in im or "__timeout__" in im:
+            ctx.disagreement("handler stream: worker failed", {"i": c["i"], "kind": "hnd", "src": c["src"]}, im, None)
+            continue
+        check_hnd(ctx, c, im)
+
+
 def run_mods(ctx, n):
     cases = [make_mods_case(ctx.seed, i) for i in range(n)]
     impl = cm.run_impl("c05", "impl_mods", cases, timeout_case=30)
@@ -1140,11 +1280,20 @@ def run(ctx):
     for k in range(0, len(cases), step):
         run_cases(ctx, cases[k:k + step])
     run_mods(ctx, (150 if ctx.quick else 3000) * ctx.scale)
+    run_hnd(ctx, (100 if ctx.quick else 2000) * ctx.scale)
 
 
 def replay(payload):
     """re-run one recorded case through implementation, model and oracle; print the three results"""
     case = payload.get("case") or payload["disagreements"][0]["case"]
+    if case.get("kind") == "hnd":
+        ctx = cm.Ctx("C05", "replay", 0)
+        im = cm.run_impl("c05", "impl_hnd", [case], jobs=1)[0]
+        check_hnd(ctx, case, im)
+        print(case["src"])
+        print(json.dumps({"impl": im, "oracle_violations": [{"name": v["name"], "detail": v["detail"]} for v in ctx.violations]},
+                         indent=1, default=str))
+        return 0
     if case.get("kind") == "mods":
         ctx = cm.Ctx("C05", "replay", 0)
         im = cm.run_impl("c05", "impl_mods", [case], jobs=1)[0]
